@@ -171,6 +171,16 @@ impl Prop for C01 {
                 v.push(Shape { alg, n, m, layout: *layout, entry: Entry::AlgDiff, all_different: false });
             }
         }
+        // long structured families (single path each)
+        for alg in ALGS {
+            for layout in long_layouts(tier == Tier::Thorough) {
+                let (n, m) = layout_lens(&layout, 0, 0);
+                if alg == Algorithm::Lcs && n * m > 60_000 {
+                    continue;
+                }
+                v.push(Shape { alg, n, m, layout, entry: Entry::AlgDiff, all_different: false });
+            }
+        }
         // large inputs without any common item (the search then runs for n+m steps):
         // lopsided and balanced, whole slices and an offset lookup
         let big: &[(usize, usize)] = match tier {
@@ -225,7 +235,10 @@ impl Prop for C01 {
         if matches!(s.layout, Layout::Blocks { .. }) {
             engine::witness("block_structured_paths");
         }
-        if !s.layout.is_plain() && s.entry != Entry::DeadlineClock && !s.all_different && !matches!(s.layout, Layout::Blocks { .. }) {
+        if matches!(s.layout, Layout::Long { .. }) {
+            engine::witness("long_structured_paths");
+        }
+        if !s.layout.is_plain() && s.entry != Entry::DeadlineClock && !s.all_different && !matches!(s.layout, Layout::Blocks { .. } | Layout::Long { .. }) {
             engine::witness("paths_with_subrange_differential");
             let inp2 = Inputs {
                 old: Seq::Slice(inp.old_items.clone()),
@@ -303,7 +316,7 @@ impl Prop for C01 {
                 "similar::algorithms::{Replace,NoFinishHook} (inside patience)",
             ],
             bounds: match tier {
-                Tier::Quick => "3 algorithms x range lengths n,m in 0..=5 (Patience 0..=4) x {slice with 0/1 padding items before/after each range (16 combinations), offset lookups at (0,0),(1,0),(0,2),(3,1)} x entry points {alg module diff, algorithms::diff, diff_slices (whole slices)}, plus algorithms::diff_deadline under the symbolic clock (every expiry point) for n,m<=4; plus block-structured inputs (up to 4 blocks of 2 items a side over 3 block types, all items of different block types different; thorough: also block lengths 1 and 3 and 5 blocks) and large inputs without any common item (all items assumed pairwise different, one path each): 1x520, 520x1, 127x390, 3x300, 60x60 (thorough also 390x127, 300x3, 200x260, 1x1100), whole slices and offset lookups; items symbolic over an unbounded alphabet (z3 Int), padding items symbolic too".into(),
+                Tier::Quick => "3 algorithms x range lengths n,m in 0..=5 (Patience 0..=4) x {slice with 0/1 padding items before/after each range (16 combinations), offset lookups at (0,0),(1,0),(0,2),(3,1)} x entry points {alg module diff, algorithms::diff, diff_slices (whole slices)}, plus algorithms::diff_deadline under the symbolic clock (every expiry point) for n,m<=4; plus block-structured inputs (up to 4 blocks of 2 items a side over 3 block types, all items of different block types different; thorough: also block lengths 1 and 3 and 5 blocks) and large inputs without any common item (all items assumed pairwise different, one path each): 1x520, 520x1, 127x390, 3x300, 60x60 (thorough also 390x127, 300x3, 200x260, 1x1100), whole slices and offset lookups; plus the long structured families of common.rs::long_layouts (about 30 (thorough 53) inputs of 40..600 items a side: long changed stretches of repeated items between unique items, unique items moved across a repetitive body, mostly different inputs with a few common interior items, chains where every value occurs twice, runs / periodic stretches growing or shrinking by a period, a doubled item or block, every 16th item replaced; some as sub-ranges at unequal offsets; one path each); items symbolic over an unbounded alphabet (z3 Int), padding items symbolic too".into(),
                 Tier::Thorough => "as quick, with n,m in 0..=6 (Patience 0..=5), padding before in {0,1,2}; for n+m>8 only a reduced set of layouts".into(),
             },
             outside: "range lengths beyond the bound; Index implementations with side effects; PartialEq implementations that are not equivalence relations; the promptness / plumbing clauses of deadlines (C07)".into(),
@@ -312,7 +325,7 @@ impl Prop for C01 {
                 "Sym's Hash is constant in symbolic runs (lawful); concrete re-executions hash the value".into(),
                 "z3 4.8.12 decides QF_LIA equalities/orderings correctly".into(),
             ],
-            required_witnesses: vec!["paths_with_equal", "paths_with_delete_and_insert", "paths_with_subrange_differential", "large_all_different_paths"],
+            required_witnesses: vec!["paths_with_equal", "paths_with_delete_and_insert", "paths_with_subrange_differential", "large_all_different_paths", "long_structured_paths"],
             rule: "one state = one explored path (leaf) of the real code for one shape; one transition = one solver-decided comparison".into(),
         }
     }
@@ -337,6 +350,15 @@ pub fn describe_inputs(n: usize, m: usize, layout: Layout, ints: &[i64]) -> Valu
             let pool: Vec<Vec<i64>> = (0..3).map(|t| it.by_ref().take(block_type_len(t, blen)).cloned().collect()).collect();
             let build = |bs: &[u8; 5]| -> Vec<i64> { bs.iter().filter(|b| **b != 255).flat_map(|b| pool.get(*b as usize).cloned().unwrap_or_default()).collect() };
             json!({"old": build(&old), "new": build(&new), "index": "slices (whole)", "block_structure": {"old": old.iter().filter(|b| **b != 255).collect::<Vec<_>>(), "new": new.iter().filter(|b| **b != 255).collect::<Vec<_>>(), "block_len": blen}})
+        }
+        Layout::Long { fam, k, var, pad } => {
+            let (po, pn, name) = long_pattern(fam, k as usize, var);
+            let mut keys: Vec<u32> = po.iter().chain(pn.iter()).copied().collect();
+            keys.sort();
+            keys.dedup();
+            let val = |x: &u32| -> i64 { ints.get(keys.binary_search(x).unwrap()).copied().unwrap_or(-1) };
+            json!({"pattern": name, "k": k, "old_items_of_range": po.iter().map(val).collect::<Vec<_>>(), "new_items_of_range": pn.iter().map(val).collect::<Vec<_>>(),
+                   "extra_items_in_front_of_the_ranges": {"old": pad & 3, "new": (pad >> 2) & 3}, "index": "slices", "note": "pool items are pairwise different; the values are one model"})
         }
         Layout::Offset { off_o, off_n } => {
             let old: Vec<i64> = ints.iter().take(n).cloned().collect();
